@@ -69,8 +69,8 @@ End TreeInd.
 
 (** all nodes of a tree / forest in preorder, each as the subtree rooted there *)
 Fixpoint nodes_t (t : tree) : list tree :=
-  match t with T _ _ cs => t :: flat_map nodes_t cs end.
-Definition nodes (F : forest) : list tree := flat_map nodes_t F.
+  match t with T _ _ cs => t :: (cs ≫= nodes_t) end.
+Definition nodes (F : forest) : list tree := F ≫= nodes_t.
 Definition ids_t (t : tree) : list positive := tid <$> nodes_t t.
 Definition ids (F : forest) : list positive := tid <$> nodes F.
 Definition roots (F : forest) : list positive := tid <$> F.
@@ -98,7 +98,7 @@ Definition links (l : list positive) : gmap positive (ptr * ptr) :=
 Definition root_entries (R : list positive) : list (positive * (ptr * ptr)) :=
   (fun r => (r, (None, None))) <$> R.
 Definition lnk_entries (R : list positive) (FL : list fnode) : list (positive * (ptr * ptr)) :=
-  root_entries R ++ flat_map (fun n => chain_entries (fn_cids n)) FL.
+  root_entries R ++ (FL ≫= fun n => chain_entries (fn_cids n)).
 Definition lnk_of (R : list positive) (FL : list fnode) : gmap positive (ptr * ptr) :=
   list_to_map (lnk_entries R FL).
 
@@ -124,7 +124,7 @@ Definition owned_strs (d : rdata) : list positive :=
   (if is_ref d then [] else opt_list (rd_vstr d)) ++ (if is_const d then [] else opt_list (rd_key d)).
 Definition owned_fn (n : fnode) : list positive := fn_id n :: owned_strs (fn_data n).
 (** every block owned by a flat node list / a forest: node blocks and owned string blocks *)
-Definition owned_fl (FL : list fnode) : list positive := flat_map owned_fn FL.
+Definition owned_fl (FL : list fnode) : list positive := FL ≫= owned_fn.
 Definition owned (F : forest) : list positive := owned_fl (flat F).
 
 (** * Well-formedness: heap [h] encodes forest [F] *)
@@ -167,17 +167,17 @@ Definition remove_root (x : positive) (F : forest) : forest :=
 (** replace the children list of node [p] *)
 Fixpoint set_children_t (p : positive) (cs' : list tree) (t : tree) : tree :=
   match t with
-  | T i d cs => if decide (i = p) then T i d cs' else T i d (map (set_children_t p cs') cs)
+  | T i d cs => if decide (i = p) then T i d cs' else T i d (set_children_t p cs' <$> cs)
   end.
 Definition set_children (p : positive) (cs' : list tree) (F : forest) : forest :=
-  map (set_children_t p cs') F.
+  set_children_t p cs' <$> F.
 
 (** replace the data of node [p] *)
 Fixpoint set_data_t (p : positive) (d' : rdata) (t : tree) : tree :=
   match t with
-  | T i d cs => if decide (i = p) then T i d' cs else T i d (map (set_data_t p d') cs)
+  | T i d cs => if decide (i = p) then T i d' cs else T i d (set_data_t p d' <$> cs)
   end.
-Definition set_data (p : positive) (d' : rdata) (F : forest) : forest := map (set_data_t p d') F.
+Definition set_data (p : positive) (d' : rdata) (F : forest) : forest := set_data_t p d' <$> F.
 
 (** position of id [x] in a list of ids *)
 Fixpoint index_of (x : positive) (l : list positive) : option nat :=
